@@ -107,6 +107,8 @@ class World:
         self.usage: dict[str, int] = {}  # directory basename -> bytes
         self.paths: set[str] = set()  # every requirement path of the case (pre-declaration)
         self.calls: list[tuple] = []
+        self.fail_usage: set[str] = set()  # directory basenames whose usage query fails (directories removed)
+        self.failed_queries = 0
         for di, d in enumerate(desc["deps"]):
             name = f"d{di}"
             self.top.append(name)
@@ -230,6 +232,11 @@ class Model:
         return self.world.usage.get(posixpath.basename(path), 0)
 
     def release(self, alloc: dict) -> None:
+        """What stays reserved after a release: the measured usage of the job's directories. If the
+        measurement fails (fault dimension) the scheduler's documented fallback (warning + empty usage)
+        applies: the whole reservation is returned and nothing is kept on that location."""
+        if alloc.get("fail"):
+            return
         for loc in alloc["locs"]:
             for lname, lv in req_levels(self.world, loc, alloc["req"], alloc["paths"]):
                 for mp, ds in lv["dirs"].items():
@@ -327,6 +334,11 @@ def register():
                 head = cmd.split(" -type f", 1)[0]
                 total = 0
                 for p in shlex.split(head)[2:]:
+                    if posixpath.basename(p) in self.world.fail_usage:
+                        # fault dimension: the job's directories are gone, the measurement exits non-zero
+                        # (-> WorkflowExecutionException in remotepath._check_status)
+                        self.world.failed_queries += 1
+                        return f"find: '{p}': No such file or directory\n", 1
                     total += self.world.usage.get(posixpath.basename(p), 0)
                 return f"{total}\n", 0
             if command[:2] == ["test", "-e"]:
@@ -574,19 +586,23 @@ class History:
         lines.append(f"  retained(model, bytes)={self.model.retained}")
         return "\n".join(lines)
 
-    def loc_tag(self, name: str | None, nested: tuple | set = ()) -> str:
+    def loc_tag(self, name: str | None, nested: tuple | set = (), shared_first: bool = False) -> str:
         """Root-cause bucket suffix for a violation observed on (inner) location ``name``: the stacked
         shapes with recorded findings get their own kinds, so that they never hide a violation elsewhere.
-        ``nested``: further locations known to be reached through a bind that contains an inner mount."""
+        ``nested``: further locations known to be reached through a bind that contains an inner mount.
+        Release-side oracles (C11, C12) look at the release defects first: they also hit inner locations
+        shared by several outer ones, whose own defect (requirement multiplied) is fixed in the repository;
+        C10 (``shared_first``) looks at the shared shape first (joint validity of multi-location targets)."""
         if name is None:
             return ""
-        if len(self.world.outer_sharing(name)) > 1:
-            return ":shared-inner"
+        shared = ":shared-inner" if len(self.world.outer_sharing(name)) > 1 else ""
+        if shared_first and shared:
+            return shared
         if name in self.nested_locs or name in nested:
             return ":inner-mount-under-bind"
         if name in self.multi_locs:
             return ":multi-location-stacked"
-        return ""
+        return shared
 
     def active_allocs(self) -> list[dict]:
         return [j["alloc"] for j in self.jobs if j["alloc"] is not None and j["status"] in ACTIVE]
@@ -633,18 +649,19 @@ class History:
         return alive
 
     # -- operations -------------------------------------------------------------------------------
-    def new_job(self, bi: int, ri: int, usage: list[int], inputs: dict | None = None) -> dict:
+    def new_job(self, bi: int, ri: int, usage: list[int], inputs: dict | None = None, fail: bool = False) -> dict:
         bi = bi % len(self.bindings)
         j = {"idx": len(self.jobs), "name": f"/b{bi}/0.{len(self.jobs)}", "bi": bi, "req": self.reqs[ri % len(self.reqs)],
              "usage": list(usage), "attempt": -1, "status": None, "task": None, "alloc": None, "notify": None,
-             "waited": False, "inputs": inputs, "ever_ran": False, "paths": {}, "mreq": None, "survivors": [], "last_alloc": None}
+             "waited": False, "inputs": inputs, "ever_ran": False, "paths": {}, "mreq": None, "survivors": [], "last_alloc": None,
+             "fail": bool(fail) and not self.world.local}  # local tier: a removed directory simply measures 0
         self.jobs.append(j)
         return j
 
     def reschedulable(self) -> list[dict]:
         return [j for j in self.jobs if j["status"] == "ROLLBACK" and j["task"] is None and j["attempt"] + 1 < MAX_ATTEMPTS]
 
-    async def op_schedule(self, pick: int, bi: int, ri: int, usage: list[int], inputs: dict | None = None):
+    async def op_schedule(self, pick: int, bi: int, ri: int, usage: list[int], inputs: dict | None = None, fail: bool = False):
         elig = self.reschedulable()
         fresh = len(self.jobs) < MAX_JOBS
         n = len(elig) + (1 if fresh else 0)
@@ -655,7 +672,7 @@ class History:
             # the recovery workflow schedules the same job name again (same step: same binding, same requirement)
             await self.start_schedule(elig[i])
         else:
-            await self.start_schedule(self.new_job(bi, ri, usage, inputs))
+            await self.start_schedule(self.new_job(bi, ri, usage, inputs, fail))
 
     async def start_schedule(self, j: dict):
         from streamflow.core.config import BindingConfig
@@ -675,6 +692,8 @@ class History:
                 # a job stays within the storage it asked for (measured usage <= requested size); otherwise the
                 # retained usage can exceed the capacity, which is outside the statements of C10-C12
                 self.world.usage[d] = min(j["usage"][ki % len(j["usage"])], size) * (MIB // U) if j["usage"] else 0
+                if j["fail"]:
+                    self.world.fail_usage.add(d)
             self.prepare_dirs(paths)
         j["paths"] = paths
         j["mreq"] = None if req is None else {"cores": req["cores"], "mem": req["mem"],
@@ -750,7 +769,7 @@ class History:
         if prev in ACTIVE and status not in ACTIVE:
             self.stats["rel_fireable" if prev == "FIREABLE" else "rel_running"] += 1
             self.model.release(j["alloc"])
-            if any(self.model.usage_of(p) for p in j["paths"].values()):
+            if not j["fail"] and any(self.model.usage_of(p) for p in j["paths"].values()):
                 self.stats["storage_kept"] += 1
         if status == "RUNNING":
             j["ever_ran"] = True
@@ -819,7 +838,7 @@ class History:
             dname = self.world.top[dep % len(self.world.top)]
             if len(locs) != k or len(set(locs)) != len(locs) or any(l not in self.world.deployments[dname] for l in locs):
                 self._violate("C10", "bad-location-set", f"{j['name']}: target d={dname} locations={k} but allocated on {locs}")
-            cand = {"job": j["name"], "target": ti, "locs": locs, "req": j["mreq"], "paths": j["paths"]}
+            cand = {"job": j["name"], "target": ti, "locs": locs, "req": j["mreq"], "paths": j["paths"], "fail": j["fail"]}
             self.c13_grant(j, cand)
             j["alloc"] = cand
             j["last_alloc"] = cand
@@ -866,7 +885,7 @@ class History:
         bad = self.model.over(active)
         if bad:
             nested = {self.world.locs[l].inner for a in active for l in a["locs"] if nested_under_bind(self.world, l, a["req"], a["paths"])}
-            tag = max((self.loc_tag(b.split(":")[0], nested) for b in bad), default="")
+            tag = max((self.loc_tag(b.split(":")[0], nested, shared_first=True) for b in bad), default="")
             v = Violation("C10:over-allocation" + tag,
                           "; ".join(bad) + f"\nactive={[(a['job'], a['locs']) for a in active]}\n" + self.describe())
             raise v
@@ -992,7 +1011,7 @@ class History:
             self.poll()
             kind = op[0]
             if kind == "s":
-                await self.op_schedule(op[1], op[2], op[3], op[4], op[5] if len(op) > 5 else None)
+                await self.op_schedule(op[1], op[2], op[3], op[4], op[5] if len(op) > 5 else None, bool(op[6]) if len(op) > 6 else False)
             elif kind == "n":
                 await self.op_notify(op[1], op[2])
             elif kind == "r":
@@ -1154,7 +1173,8 @@ small_inputs = st.fixed_dictionaries({"p0": st.sampled_from(["a", "a", 1, "b"]),
 
 def ops(filters=False, max_size=40):
     s = st.tuples(st.just("s"), st.integers(0, 7), st.integers(0, 2), st.integers(0, 3),
-                  st.lists(st.sampled_from([0, 1, 1, 2, 2, 3]), min_size=1, max_size=2), *([small_inputs] if filters else []))
+                  st.lists(st.sampled_from([0, 1, 1, 2, 2, 3]), min_size=1, max_size=2), small_inputs if filters else st.none(),
+                  st.sampled_from([0, 0, 1]))  # last: the release-time usage query of this job fails
     n = st.tuples(st.just("n"), st.integers(0, 15), st.integers(0, 23))
     q = st.tuples(st.just("q"))
     r = st.tuples(st.just("r"), st.integers(0, 7))
@@ -1187,14 +1207,17 @@ EXH_CONFIGS = [
         "deps": [{"kind": "hw", "data": True, "locs": [_HWLOC], "stack": None}], "bindings": [{"targets": [[0, 1, None]]}],
         "reqs": [{"cores": 3, "mem": 4, "entries": {"__outdir__": [1, 3]}}, {"cores": 4, "mem": 4, "entries": {"__outdir__": [1, 3], "__tmpdir__": [0, 1]}}],
         "predeclare": False}, False, True),
-]  # (name, world, jobs are symmetric, both jobs are granted when scheduled back to back)
+]  # (name, world, jobs are symmetric, both jobs are granted when scheduled back to back[, jobs whose usage query fails])
+EXH_CONFIGS.append(("hardware, jobs exclude each other, usage query of job 0 fails on release",
+                    EXH_CONFIGS[1][1], False, False, (0,)))
 
 
 class ExplicitHistory(History):
-    def __init__(self, case, oracle, symmetric: bool):
+    def __init__(self, case, oracle, symmetric: bool, fail_jobs: tuple = ()):
         super().__init__(case, oracle, serial=True)
         self.by_id: dict[int, dict] = {}
         self.symmetric = symmetric
+        self.fail_jobs = fail_jobs
 
     def valid_next(self) -> list[list]:
         out: list[list] = []
@@ -1217,7 +1240,7 @@ class ExplicitHistory(History):
         if op[0] == "S":
             j = self.by_id.get(op[1])
             if j is None:
-                j = self.by_id[op[1]] = self.new_job(0, op[1], [2, 1])
+                j = self.by_id[op[1]] = self.new_job(0, op[1], [2, 1], None, op[1] in self.fail_jobs)
             await self.start_schedule(j)
         else:
             await self.notify(self.by_id[op[1]], op[2])
@@ -1233,7 +1256,7 @@ def exhaustive_blocks(tier: str):
     def after(status):
         return sorted(set(ALLOWED[status]))
 
-    for ci, (_, _, symmetric, together) in enumerate(EXH_CONFIGS):
+    for ci, (_, _, symmetric, together, *_rest) in enumerate(EXH_CONFIGS):
         firsts = [["S", 0]] if symmetric else [["S", 0], ["S", 1]]
         for f in firsts:
             a, b = f[1], 1 - f[1]
@@ -1253,13 +1276,14 @@ EXH_NONTRIVIAL = {
 
 
 async def run_exhaustive_block(case: dict, oracle: str, rec) -> None:
-    name, desc, symmetric, _ = EXH_CONFIGS[case["config"]]
+    name, desc, symmetric, _, *rest = EXH_CONFIGS[case["config"]]
+    fail_jobs = rest[0] if rest else ()
     depth = case["depth"]
     stack = [[list(o) for o in case["prefix"]]]
     leaves = waited = 0
     while stack:
         prefix = stack.pop()
-        h = ExplicitHistory({"world": desc, "ops": [], "drain": [], "schedule": []}, oracle, symmetric)
+        h = ExplicitHistory({"world": desc, "ops": [], "drain": [], "schedule": []}, oracle, symmetric, fail_jobs)
         h.aborted = False
         await h.setup()
         taken: list[list] = []
